@@ -68,11 +68,11 @@ def judge_trace(prop, verdict, name, decls, obs_paths, stats, want_eps=None):
     verdict.drift += len(drift)
     for (l, i, obj) in bad:
         did, ep, raw = index[l]
-        inp, out = raw[i - 1]
+        inp, out, xobs = raw[i - 1]
         d = by_id[did]
         rec = {
             "property": prop, "decl": did, "family": d["fam"], "ty": d["ty"], "ep": ep,
-            "input": inp, "observed": out, "model_input": obj["inp"], "model_observed": obj["got"],
+            "input": inp, "observed": out, "extra_observations": xobs, "model_input": obj["inp"], "model_observed": obj["got"],
             "declarative_outcome": obj["want"], "nan_involved": obj["nan"],
             "declaration": describe_decl(d),
             "validators": [r_["k"] for r_ in d["val"]], "sanitizers": [s["k"] + ":" + s["fn"] for s in d["san"]],
@@ -95,6 +95,8 @@ def sample_decls(adecls, n, rng, must=None):
         return list(adecls)
     keep = [ad for ad in adecls if must and must(ad)]
     rest = [ad for ad in adecls if not (must and must(ad))]
+    if len(keep) > n // 3:                      # the "always" class may take at most a third of the sample
+        keep = rng.sample(keep, n // 3)
     k = max(0, n - len(keep))
     return keep + rng.sample(rest, min(k, len(rest)))
 
